@@ -217,3 +217,102 @@ class ERIIllConditioned:
         lab = order.replace("ss", "s(%.0e)s" % t).replace("sX", "s(%.0e)X" % t).replace("Xs", "Xs(%.0e)" % t).replace("X", X)
         name = "eri_illcond/%s,diffuse=%.1f/within-1e-6-of-Schwarz" % (lab, e) if "quad" not in shape else "eri_illcond/%s/within-1e-6-of-Schwarz" % shape["label"]
         M.true(name, worst[0] <= mp.mpf("1e-6"), "worst |block - exact| / Schwarz = %s at component index %s" % (mp.nstr(worst[0], 4), worst[1]))
+
+
+class DependencyContracts:
+    """BOUNDED check of the contracts ASSUMED on scipy.special (the symbolic runs replace these functions by exact integer
+    versions): on the whole argument range gbasis can reach for l <= 10 and derivative orders <= 8 the installed functions
+    return n!!, n!, C(n,k), P(n,k) and the physicists' Hermite polynomials to 1e-13 relative, in the calling conventions
+    gbasis uses (scalars, integer arrays, exact=False / exact=True, negative arguments of factorial2 -> 0 except (-1)!! = 1)."""
+
+    function = "scipy.special.factorial2 / factorial / comb / perm / eval_hermite (dependency contracts assumed by the symbolic runs)"
+    fp = True
+    fp_only = True
+    bounded = True
+    fp_nsamp = (1, 1)
+
+    def fp_shapes(self, tier):
+        return [dict(what="factorials"), dict(what="binomials"), dict(what="hermite")]
+
+    shapes = fp_shapes
+
+    def run(self, shape, M):
+        if M.symbolic:
+            return
+        import math
+        from fractions import Fraction
+
+        import scipy.special as sp
+
+        gutils = M.mods.get("gbasis.utils")
+        worst = 0.0
+        bad = []
+
+        def rel(got, want):
+            return abs(float(got) - float(want)) / max(1.0, abs(float(want)))
+
+        if shape["what"] == "factorials":
+            def dfact(n):
+                if n == -1:
+                    return 1
+                if n < -1:
+                    return 0
+                r = 1
+                while n > 1:
+                    r *= n
+                    n -= 2
+                return r
+
+            f2s = [("scipy.special.factorial2", sp.factorial2)] + ([("gbasis.utils.factorial2", gutils.factorial2)] if gutils is not None and hasattr(gutils, "factorial2") else [])
+            for nm, f2 in f2s:
+                # scipy's own value at -1 differs between releases (0 or 1); gbasis' wrapper maps anything <= 0 to 1
+                for n in range(-1 if nm.startswith("gbasis") else 0, 44):
+                    for form, val in (("scalar", lambda: f2(n)), ("array", lambda: f2(np.array([n, n]))[0]), ("2d", lambda: f2(np.array([[n]]))[0, 0])):
+                        try:
+                            e = rel(val(), dfact(n))
+                        except Exception as ex:  # noqa
+                            bad.append("%s(%d) [%s] raised %s" % (nm, n, form, type(ex).__name__))
+                            continue
+                        worst = max(worst, e)
+                        if e > 1e-13:
+                            bad.append("%s(%d) [%s] off by %.2g" % (nm, n, form, e))
+            e = float(sp.factorial2(np.array(-1)))
+            if e not in (0.0, 1.0):
+                bad.append("scipy.special.factorial2(-1) = %r (the wrapper expects a value <= 0 or 1)" % e)
+            for n in range(0, 41):
+                for form, val in (("scalar", lambda: sp.factorial(n)), ("array", lambda: sp.factorial(np.array([n]))[0]), ("exact", lambda: sp.factorial(n, exact=True))):
+                    e = rel(val(), math.factorial(n))
+                    worst = max(worst, e)
+                    if e > 1e-13:
+                        bad.append("factorial(%d) [%s] off by %.2g" % (n, form, e))
+        elif shape["what"] == "binomials":
+            for n in range(0, 41):
+                for k in range(0, n + 3):
+                    want = math.comb(n, k)
+                    for form, val in (("scalar", lambda: sp.comb(n, k)), ("array", lambda: sp.comb(np.array([n]), np.array([k]))[0]), ("exact", lambda: sp.comb(n, k, exact=True))):
+                        e = rel(val(), want)
+                        worst = max(worst, e)
+                        if e > 1e-13:
+                            bad.append("comb(%d,%d) [%s] off by %.2g" % (n, k, form, e))
+                    wantp = math.perm(n, k) if k <= n else 0
+                    for form, val in (("scalar", lambda: sp.perm(n, k)), ("array", lambda: sp.perm(np.array([n]), np.array([k]))[0])):
+                        e = rel(val(), wantp)
+                        worst = max(worst, e)
+                        if e > 1e-13:
+                            bad.append("perm(%d,%d) [%s] off by %.2g" % (n, k, form, e))
+        else:
+            rng = M.sample_rng
+            for n in range(0, 13):
+                # physicists' Hermite polynomial by its recurrence, in exact rationals
+                for _ in range(6):
+                    x = Fraction(rng.randint(-4000, 4000), 1000)
+                    h0, h1 = Fraction(1), 2 * x
+                    for k in range(1, n):
+                        h0, h1 = h1, 2 * x * h1 - 2 * k * h0
+                    want = h0 if n == 0 else h1
+                    got = sp.eval_hermite(n, float(x))
+                    e = abs(got - float(want)) / max(1.0, abs(float(want)))
+                    worst = max(worst, e)
+                    if e > 1e-12:
+                        bad.append("eval_hermite(%d, %s) off by %.2g" % (n, x, e))
+        M.true("dependency/%s" % shape["what"], not bad, "worst relative deviation %.3g; %s" % (worst, "; ".join(bad[:5])))
